@@ -395,3 +395,177 @@ func ctxParam(info *types.Info, fd *ast.FuncDecl) types.Object {
 	}
 	return nil
 }
+
+// MACROEXP.count-agrees — C07: "evaluating a macro call is equivalent to
+// evaluating the form macroexpand returns".  Both routes refuse a chain of
+// successive expansions that is too long, against the same limit; they must
+// also COUNT the same way, or a chain of exactly limit+1 expansions is an error
+// on one route and a value on the other.  How many expansions a loop permits
+// follows from the order of three things on one turn — the expansion, the
+// increment, the test — and from the comparison operator.
+func init() {
+	register(&Rule{ID: "MACROEXP.count-agrees", Floor: 2,
+		Doc: "eval's re-expansion loop and the macroexpand builtin's loop permit the same number of successive expansions relative to Runtime.MaxMacroExpansions(): for each loop the offset is derived from whether the limit test comes after the expansion and its increment (counter = expansions made: `>` permits limit, `>=` permits limit-1) or before the expansion (counter = expansions made so far: `>` permits limit+1, `>=` permits limit), and the two offsets are equal",
+		Run: func(c *Ctx) []Obligation {
+			const rid = "MACROEXP.count-agrees"
+			mm := c.LookupMethod("lisp.Runtime.MaxMacroExpansions")
+			exp1 := c.LookupPkgFunc("lisp.macroExpand1")
+			evs := c.LookupMethod("lisp.LEnv.evalSExpr")
+			if mm == nil || exp1 == nil || evs == nil {
+				return []Obligation{anchorMissing(rid, "MaxMacroExpansions / macroExpand1 / evalSExpr")}
+			}
+			type site struct {
+				fname string
+				via   *types.Func
+			}
+			sites := []site{{"lisp.(*LEnv).eval", evs}}
+			// the function whose loop calls macroExpand1
+			cs, _ := c.CallsTo(func(p string) bool { return rel(p) == "lisp" }, exp1)
+			for _, st := range cs {
+				fc := c.cfgOf(st.Unit, nil)
+				for _, comp := range fc.cyclicSCCs(nil) {
+					for _, b := range comp {
+						for _, nd := range b.Nodes {
+							if nodeCalls(st.Unit.Pkg.TypesInfo, nd, exp1) != nil {
+								sites = append(sites, site{st.Unit.Name(), exp1})
+							}
+						}
+					}
+				}
+			}
+			var obs []Obligation
+			offsets := map[string]int{}
+			var units []FuncUnit
+			seen := map[string]bool{}
+			for _, s := range sites {
+				if seen[s.fname] {
+					continue
+				}
+				seen[s.fname] = true
+				fn, fd, pkg := c.LookupFunc(s.fname)
+				if fn == nil {
+					obs = append(obs, anchorMissing(rid, s.fname))
+					continue
+				}
+				u := FuncUnit{fn, fd, pkg}
+				units = append(units, u)
+				info := pkg.TypesInfo
+				fc := c.cfgOf(u, nil)
+				isLimit := func(e ast.Expr) bool {
+					if ce, ok := ast.Unparen(e).(*ast.CallExpr); ok && originOf(Callee(info, ce)) == mm {
+						return true
+					}
+					if o := identObj(info, e); o != nil {
+						if dc, _, n := definingCall(info, fd.Body, o); dc != nil && n == 1 && originOf(Callee(info, dc)) == mm {
+							return true
+						}
+					}
+					return false
+				}
+				// the test: counter OP limit
+				var testLoc, expLoc, incLoc Loc
+				var haveT, haveE, haveI bool
+				var counter types.Object
+				strict := false // true: `>` ; false: `>=`
+				for _, b := range fc.G.Blocks {
+					if !fc.Live(b) {
+						continue
+					}
+					for i, n := range b.Nodes {
+						if e, ok := n.(ast.Expr); ok {
+							ast.Inspect(e, func(m ast.Node) bool {
+								be, ok := m.(*ast.BinaryExpr)
+								if !ok {
+									return true
+								}
+								switch {
+								case isLimit(be.Y) && (be.Op == token.GTR || be.Op == token.GEQ):
+									counter, strict = identObj(info, be.X), be.Op == token.GTR
+								case isLimit(be.X) && (be.Op == token.LSS || be.Op == token.LEQ):
+									counter, strict = identObj(info, be.Y), be.Op == token.LSS
+								default:
+									return true
+								}
+								testLoc, haveT = Loc{b, i}, true
+								return true
+							})
+						}
+						if nodeCalls(info, n, s.via) != nil && !haveE {
+							expLoc, haveE = Loc{b, i}, true
+						}
+					}
+				}
+				if haveT && counter != nil {
+					for _, b := range fc.G.Blocks {
+						if !fc.Live(b) {
+							continue
+						}
+						for i, n := range b.Nodes {
+							switch x := n.(type) {
+							case *ast.IncDecStmt:
+								if x.Tok == token.INC && identObj(info, x.X) == counter {
+									incLoc, haveI = Loc{b, i}, true
+								}
+							case *ast.AssignStmt:
+								if x.Tok == token.ADD_ASSIGN && len(x.Lhs) == 1 && identObj(info, x.Lhs[0]) == counter {
+									if v, ok := intConst(info, x.Rhs[0]); ok && v == 1 {
+										incLoc, haveI = Loc{b, i}, true
+									}
+								}
+							}
+						}
+					}
+				}
+				construct := "expansions permitted"
+				if !haveT || !haveE || !haveI || counter == nil {
+					obs = append(obs, mkOb(c, rid, u, construct, fd, Undecided, "limit test, expansion call or counter increment not found", true))
+					continue
+				}
+				off, how := 0, ""
+				switch {
+				case fc.Dominates(expLoc, incLoc) && fc.Dominates(incLoc, testLoc):
+					how = "expansion, then increment, then test: the counter is the number of expansions made"
+					if strict {
+						off = 0
+					} else {
+						off = -1
+					}
+				case fc.Dominates(testLoc, expLoc) && fc.Dominates(expLoc, incLoc):
+					how = "test, then expansion, then increment: the counter is the number of expansions made before this one"
+					if strict {
+						off = 1
+					} else {
+						off = 0
+					}
+				default:
+					obs = append(obs, mkOb(c, rid, u, construct, fd, Undecided, "the order of expansion, increment and test on one turn of the loop is not one of the two recognised disciplines", true))
+					continue
+				}
+				offsets[s.fname] = off
+				obs = append(obs, mkOb(c, rid, u, construct, fc.Node(testLoc), Proved, fmt.Sprintf("limit%+d (%s; operator %s)", off, how, map[bool]string{true: ">", false: ">="}[strict]), true))
+			}
+			if len(offsets) >= 2 {
+				first, firstName, same := 0, "", true
+				i := 0
+				for _, nm := range sortedKeys(offsets) {
+					if i == 0 {
+						first, firstName = offsets[nm], nm
+					} else if offsets[nm] != first {
+						same = false
+						u := units[0]
+						for _, uu := range units {
+							if uu.Name() == nm {
+								u = uu
+							}
+						}
+						obs = append(obs, mkOb(c, rid, u, "agrees with "+firstName, u.Decl, Violated, fmt.Sprintf("%s permits limit%+d successive expansions but %s permits limit%+d: a macro chain of exactly that length is an error when the call is evaluated and a value when its macroexpand is evaluated (or the reverse)", firstName, first, nm, offsets[nm]), true))
+					}
+					i++
+				}
+				if same {
+					obs = append(obs, Obligation{Rule: rid, Func: "lisp", Construct: "the two loops agree", Verdict: Proved, Detail: fmt.Sprintf("both permit limit%+d", first), Nontrivial: true})
+				}
+			}
+			return obs
+		}})
+}
